@@ -106,6 +106,8 @@ type normaliser struct {
 	cur  *ast.FuncDecl // the function whose body is being rewritten
 	// anyHelper: helperOf also answers for literal-only helpers
 	anyHelper bool
+	// freshLhs: the receiving variables that the statement being expanded declares itself (they hold their zero value)
+	freshLhs map[string]bool
 }
 
 // Normalise expands unknown helpers (see the comment at the top). It returns notes for the evidence.
@@ -1375,9 +1377,12 @@ func (nz *normaliser) expand(h *helper, call *ast.CallExpr, as *ast.AssignStmt, 
 				rtypes = append(rtypes, fld.Type)
 			}
 		}
+		nz.freshLhs = map[string]bool{}
+		defer func() { nz.freshLhs = nil }()
 		for i, l := range as.Lhs {
 			lhs = append(lhs, l)
 			if id, ok := l.(*ast.Ident); ok && as.Tok == token.DEFINE && id.Name != "_" && info.Defs[id] != nil {
+				nz.freshLhs[id.Name] = true
 				pre = append(pre, &ast.DeclStmt{Decl: &ast.GenDecl{Tok: token.VAR, Specs: []ast.Spec{&ast.ValueSpec{
 					Names: []*ast.Ident{ast.NewIdent(id.Name)}, Type: cloneNode(rtypes[i])}}}})
 			}
@@ -1763,7 +1768,7 @@ func (nz *normaliser) expandBody(h *helper, call *ast.CallExpr, lhs []ast.Expr, 
 	nz.notes = append(nz.notes, fmt.Sprintf("call of %s expanded in place", funcName(h.obj)))
 	if !tail && !needLabel && finalLhs == nil && nGenAssign == 1 {
 		before := len(body.List)
-		body.List = unifyResults(body.List, sfx, lastGenAssign)
+		body.List = unifyResults(body.List, sfx, lastGenAssign, nz.freshLhs)
 		if len(body.List) == before && len(named) > 0 {
 			// the same for named results (declared by this expansion as zero-valued locals): `err = errZq; …` where errZq is
 			// the helper's named result becomes the caller's err itself, reset to nil first
@@ -1857,7 +1862,7 @@ func freeBreak(n ast.Node) bool {
 // The helper's result variables and the caller's receiving variables are then one and the same: the declaration becomes
 // the assignment `x, y = <expr>` and the copy at the end disappears — which is the statement that stood in the caller
 // before it was moved into the helper (`ac, ok := s.outgoingCalls[id]` rather than a lookup into temporaries and a copy).
-func unifyResults(list []ast.Stmt, sfx string, fin *ast.AssignStmt) []ast.Stmt {
+func unifyResults(list []ast.Stmt, sfx string, fin *ast.AssignStmt, fresh map[string]bool) []ast.Stmt {
 	if len(list) < 2 || fin == nil {
 		return list
 	}
@@ -1885,6 +1890,48 @@ func unifyResults(list []ast.Stmt, sfx string, fin *ast.AssignStmt) []ast.Stmt {
 			return append(list, rest...)
 		}
 		to[rid.Name] = lid.Name
+	}
+	// zero-valued declarations (`var aZq T`) of returned locals whose receiving variable is freshly declared by the
+	// caller's statement are dropped: the caller's variable is that zero value
+	varDecls := map[int]bool{}
+	nVar := 0
+	for i, st := range list[:len(list)-1] {
+		ds, ok := st.(*ast.DeclStmt)
+		if !ok {
+			continue
+		}
+		gd, ok := ds.Decl.(*ast.GenDecl)
+		if !ok || gd.Tok != token.VAR || len(gd.Specs) != 1 {
+			continue
+		}
+		vs := gd.Specs[0].(*ast.ValueSpec)
+		if len(vs.Names) != 1 || len(vs.Values) != 0 {
+			continue
+		}
+		if nn, is := to[vs.Names[0].Name]; is && fresh[nn] {
+			varDecls[i] = true
+			nVar++
+		}
+	}
+	if nVar > 0 && nVar == len(to) {
+		// all returned locals are zero-declared variables: rename and drop the declarations and the final copy
+		for _, st := range list[:len(list)-1] {
+			ast.Inspect(st, func(n ast.Node) bool {
+				if id, ok := n.(*ast.Ident); ok {
+					if nn, is := to[id.Name]; is {
+						id.Name = nn
+					}
+				}
+				return true
+			})
+		}
+		var out []ast.Stmt
+		for i, st := range list[:len(list)-1] {
+			if !varDecls[i] {
+				out = append(out, st)
+			}
+		}
+		return append(out, rest...)
 	}
 	// the one declaration of those locals
 	declAt := -1
